@@ -25,7 +25,7 @@ ASSUMPTIONS = [
     "a message is expired at t >= accept + lifetime (the property text: 'never at or after its lifetime has elapsed')",
     "all instants are dyadic rationals, so 'exactly at expiry' is an exact float comparison",
 ]
-PROBES = ["c16.add_during_teardown_after_failed_flush", "c16.requeued_victim_expired", "c16.down_by_write_fault", "c16.add_at_connect_notification", "c16.expired_during_slow_flush", "c16.overflow", "c16.expiry_made_room", "c16.send_at_exact_expiry", "c16.not_open", "c16.expired_never_sent", "c16.connect_at_exact_expiry"]
+PROBES = ["c16.add_during_stalled_flush_then_reset", "c16.add_during_teardown_after_failed_flush", "c16.requeued_victim_expired", "c16.down_by_write_fault", "c16.add_at_connect_notification", "c16.expired_during_slow_flush", "c16.overflow", "c16.expiry_made_room", "c16.send_at_exact_expiry", "c16.not_open", "c16.expired_never_sent", "c16.connect_at_exact_expiry"]
 LIFETIMES = [0.25, 0.5, 1.0, 2.0, 5.0, 30.0]
 
 
@@ -186,9 +186,55 @@ def exec_teardown_send(sc: dict) -> dict:
     return common.result(w, V, nontrivial=True, probes=probes, evals=max(1, len(down) + 1))
 
 
+def gen_stalled_flush_fault(rng) -> dict:
+    """Ten messages wait for the link; the connection that takes them is under flow control from its first byte, so the flush
+    stalls with the first message in flight; one more message is accepted during the stall; then the peer resets. The first
+    message is owed a retry, the second (zero retries) is not: at most ten are held for the next connection."""
+    gen = rng.choice([4, 5])
+    msgs = sendq.distinct_messages(rng, gen, 12)
+    T_c = 2.0
+    knobs = {"latency": G.TICK, "first_packet_id": rng.choice([0, 250]),
+             "fates": [{"kind": "refuse", "latency": 0.0}, {"kind": "accept", "latency": 0.0}, {"kind": "refuse", "latency": 0.0}, {"kind": "accept", "latency": 0.0}]}
+    tl = [{"at": 0.0, "op": "user.open"}, {"at": 0.0, "op": "net.stall_next", "duration": 4.0}]
+    t = 0.5
+    for i, d in enumerate(msgs[:10]):
+        tl.append({"at": t, "op": "user.send", "msg": d, "policy": {"retries": 2 if i == 0 else 0 if i == 1 else rng.choice([0, 2]), "lifetime": 30.0}, "role": "A" if i == 0 else "B" if i == 1 else "rest"})
+        t += rng.choice([G.TICK, 0.0625])
+    tl.append({"at": T_c + 0.25, "op": "user.send", "msg": msgs[10], "policy": {"retries": rng.choice([0, 2]), "lifetime": 30.0}, "role": "X"})
+    tl.append({"at": T_c + 0.5, "op": "net.rst"})
+    return {"gen": gen, "mode": "socket", "knobs": knobs, "timeline": tl, "end": T_c + 8.0, "class": "stalled_flush_fault"}
+
+
+def exec_stalled_flush_fault(sc: dict) -> dict:
+    w = World(sc).run()
+    V = []
+    probes = {}
+    h = sendq.History(w)
+    links = [l for l in w.net.links if l.t_accept is not None]
+    role = {c["id"]: c["step"].get("role") for c in w.calls if c["op"] == "user.send"}
+    subs = [s for s in h.subs if s["t_accept"] is not None]
+    if len(links) < 2 or len(subs) != 11 or not any(e[2] in ("rx.rst", "conn.lost") for e in w.trace.events):
+        return common.result(w, V, nontrivial=False, probes=probes)
+    probes["c16.add_during_stalled_flush_then_reset"] = 1
+    x = next(s for s in subs if role.get(s["id"]) == "X")
+    if x["exc"] is not None:
+        V.append(viol("C16.spurious_error", {"sub": x["id"], "exc": x["exc"], "held": 9, "t": x["t_accept"], "stalled_flush": True}, exc=x["exc"]))
+    else:
+        got = [f["sub"] for f in h.frames if f["link"] == links[-1].id and f.get("sub") in role]
+        required = [s["id"] for s in sorted(subs, key=lambda s: s["seq_call"]) if role.get(s["id"]) != "B"]
+        if len(got) > 10:
+            V.append(viol("C16.more_than_ten_held", {"got": got, "stalled_flush": True}))
+        elif [i for i in got if i in required] != required:
+            missing = [i for i in required if i not in got]
+            V.append(viol("C16.held_lost" if missing else "C16.order", {"want": required, "got": got, "missing": missing, "stalled_flush": True}))
+    return common.result(w, V, nontrivial=True, probes=probes, evals=11)
+
+
 def generate(rng, index: int, tier: str) -> dict:
     if rng.random() < 0.12:
         return gen_after_fault(rng)
+    if rng.random() < 0.04:
+        return gen_stalled_flush_fault(rng)
     if rng.random() < 0.06:
         return gen_teardown_send(rng)
     gen = rng.choice([4, 5])
@@ -245,6 +291,8 @@ def execute(sc: dict) -> dict:
         return exec_after_fault(sc)
     if sc.get("class") == "teardown_send":
         return exec_teardown_send(sc)
+    if sc.get("class") == "stalled_flush_fault":
+        return exec_stalled_flush_fault(sc)
     w = World(sc).run()
     V = []
     probes = {}
